@@ -23,6 +23,8 @@
 (*  net      name                 parameter table of a real network        *)
 (*  real     scenario             a 2016-block period of a real network    *)
 (*                                given by runs; required bits, verdicts   *)
+(*  easiest  [net, d]             btcd's checkpoint bound: easiest target  *)
+(*                                d seconds after a checkpoint             *)
 (***************************************************************************)
 EXTENDS PowDefs, PowGen
 
@@ -229,7 +231,7 @@ NetExpect(n) ==
     [ timespan |-> n.timespan, spacing |-> n.spacing, factor |-> n.factor,
       limit |-> n.limit, limitBits |-> n.limitBits, reduce |-> n.reduce,
       reduction |-> n.reduction, bip94 |-> n.bip94, noRetarget |-> n.noRetarget,
-      interval |-> n.interval,
+      interval |-> n.interval, maxFuture |-> MaxFutureSecs,
       blocksPerRetarget |-> BlocksPerRetarget(n), minSpan |-> MinSpan(n), maxSpan |-> MaxSpan(n) ]
 NetLaws ==
     case.kind = "net" =>
@@ -307,6 +309,43 @@ RealLaws ==
         /\ \A p \in expect.probes : (p.b = expect.req) = ("bad-diffbits" \notin p.viol)
 
 -----------------------------------------------------------------------------
+(* easiest: synthetic networks whose block 1 is a checkpoint *)
+
+EasyNet(name, limit, limitBits, genesisBits, reduce) ==
+    [ name |-> name, timespan |-> 40, spacing |-> 10, factor |-> 4,
+      limit |-> limit, limitBits |-> limitBits, genesisBits |-> genesisBits,
+      reduce |-> reduce, reduction |-> 20, bip94 |-> FALSE, noRetarget |-> FALSE,
+      t0 |-> 1000000, now |-> 1050000 ]
+EasyNets == {
+    EasyNet("easy-mid",        RMainLimit, RMainBits, <<27, 0, 263371>>, FALSE),
+    EasyNet("easy-mid-reduce", RMainLimit, RMainBits, <<27, 0, 263371>>, TRUE),
+    EasyNet("easy-odd",        RMainLimit, RMainBits, <<28, 0, 1193046>>, FALSE),
+    EasyNet("easy-top",        RMainLimit, RMainBits, RMainBits, FALSE) }
+EasyDurations == {0, 1, 20, 21, 160, 161, 320, 321, 480, 481, 640, 641, 1120, 1121, 1280, 1281, 5000}
+EasiestCases == {[net |-> n, d |-> d] : n \in EasyNets, d \in EasyDurations}
+
+\* candidate block bits: the bound itself, its neighbours, the checkpoint's
+\* bits and their factor multiples, the limit
+EasiestExpect(x) ==
+    LET n  == x.net
+        e  == Easiest(n.genesisBits, x.d, n)
+        up(b) == BigToCompact(Pos(MulSmall(CompactMag(b), n.factor)))
+        cand == { e, Succ(e), n.genesisBits, up(n.genesisBits), up(up(n.genesisBits)),
+                  Succ(up(n.genesisBits)), n.limitBits,
+                  BigToCompact(Pos(DivSmall(CompactMag(e), 2))) }
+    IN  [ easiest |-> e,
+          probes  |-> { [b |-> b, tooLow |-> TooEasy(b, n.genesisBits, x.d, n)]
+                          : b \in {c \in cand : TargetInRange(c, n.limit)} } ]
+EasiestLaws ==
+    case.kind = "easiest" =>
+        LET n == case.x.net IN
+        /\ TargetInRange(expect.easiest, n.limit)
+        \* never harder than where the chain stood, never beyond factor^ceil(d/max)
+        /\ Leq(CompactMag(n.genesisBits), CompactMag(expect.easiest))
+        /\ (case.x.d = 0 => expect.easiest = n.genesisBits)
+        /\ \A p \in expect.probes : p.b = expect.easiest => ~p.tooLow
+
+-----------------------------------------------------------------------------
 
 (* The cases are reached in two steps, root -> group -> case, only so that *)
 (* TLC's workers share the evaluation; a group is a slice of one kind.     *)
@@ -319,6 +358,7 @@ Groups ==
     \cup {[of |-> "subsidy", interval |-> i] : i \in Intervals}
     \cup {[of |-> "boundary", net |-> n.name, h0 |-> h0] : n \in RetargetNets, h0 \in RealBases}
     \cup {[of |-> "interior", net |-> n.name] : n \in RealNets}
+    \cup {[of |-> "easiest", net |-> n.name] : n \in EasyNets}
 
 Init == case = [kind |-> "root"] /\ expect = None
 
@@ -355,6 +395,9 @@ Pick ==
        \/ /\ g.of = "interior"
           /\ \E s \in InteriorCases(RealNetOf(g.net)) :
                 case' = [kind |-> "real", s |-> s] /\ expect' = RealExpect(s)
+       \/ /\ g.of = "easiest"
+          /\ \E x \in {y \in EasiestCases : y.net.name = g.net} :
+                case' = [kind |-> "easiest", x |-> x] /\ expect' = EasiestExpect(x)
 
 Next == Group \/ Pick
 
